@@ -67,4 +67,15 @@ CHECKS = {
         'a token, a stream or a whole feed (multi-root retry included) the plain parser reaches the identical state, so the tree is the same and satisfies the C04 invariant. Tie: the C02 sequences + balanced perturbation classes classified by an independent '
         'stack walk (histogram in the evidence), validating parser outcome compared with model and classification; serialisations of library-built trees must validate.',
    note="Trusted: Coq kernel + vm_compute; harness incl. the token-recording subclasses; the stdlib html.parser tokenizer is in the loop (its recorded handler calls are the model\\'s input) but not verified; utils.addStartTag/DOCTYPE_MATCH are modelled at token level (Parser.wrap) and compared with the recorded second-pass stream; stripIEConditionals is not modelled. Model: Parser.py handlers/feed/_reset, Validator.py, attribute intake (Model/Parser.v, Model/Attr.v), getHTML (Model/Serial.v)."),
+ 'C01': dict(
+   text='Theorems (Coq, closed): for every tree, outerHTML is exactly the rendering of the tree\'s token list; for every tree in the domain the parser, fed the tree\'s own handler calls, appends exactly the rebuilt tree as one child and '
+        'restores the stack (segment lemma), and a fresh parser ends with it as its closed root; rebuilt trees satisfy the C04 invariant; serialisation is defined whenever a root exists. Tie: random and bounded-family trees built through '
+        'the DOM API or by a previous parse: the model reproduces the first serialisation from the tree, the re-parsed tree from the recorded handler calls, the second serialisation, and the kernel compares the recorded calls with the model\'s chunking '
+        'of its own token list; the oracle checks tree equality, string fixed point and str-ness on the real objects.',
+   note="Trusted: Coq kernel + vm_compute; harness incl. the token-recording subclasses; the stdlib html.parser tokenizer is in the loop (recorded handler calls) and enters the round trip as the lexer contract 'handler calls on render l = chunk l', which is instance-checked on every case (LEX-OK flag computed in the kernel) but not proved about a Gallina lexer (Stage A of DESIGN 3.3); html.unescape is outside the domain." + ' Partial: equality of the rebuilt tree with the original up to renumbering is definitional for names/nesting/text (function rebuild) but the attribute store round trip (re-intake of the rendered attributes) is tied by correspondence, not proved.'),
+ 'C20': dict(
+   text='Theorems (Coq, closed): createElementsFromHTML / createBlocksFromHTML return the top-level elements / blocks of one and the same parse (element list = element part of the block list, outermost elements included); createElementFromHTML returns '
+        'the root exactly when the first pass accepts and re-raises MultipleRootNodeException otherwise; appendInnerHTML appends the blocks one by one: innerHTML = previous blocks ++ the nodes\' HTML, every new element gets the target as parent and the '
+        'target\'s document as owner, the C04 invariant is kept; createElement is detached, lower-cased, empty. Tie: fragments of six shapes on five kinds of targets in four ownership settings, all five APIs compared with the model (fed the temporary parser\'s handler calls).',
+   note="Trusted: Coq kernel + vm_compute; harness incl. the token-recording subclasses; the stdlib html.parser tokenizer is in the loop (recorded handler calls) and enters the round trip as the lexer contract 'handler calls on render l = chunk l', which is instance-checked on every case (LEX-OK flag computed in the kernel) but not proved about a Gallina lexer (Stage A of DESIGN 3.3); html.unescape is outside the domain."),
 }
